@@ -1144,7 +1144,7 @@ func (w *ioWorld) concurrentWrites(k int, msgs []jsonrpc.Message) string {
 				}
 			}()
 			<-start
-			if err := w.conn.Write(context.Background(), m); err != nil {
+			if err := w.front.Write(context.Background(), m); err != nil {
 				res[i] = "write-error"
 			}
 		}()
@@ -1204,20 +1204,56 @@ func (m *memRWC) takeOut() []byte {
 	return b
 }
 
+// lockedBuf: the destination of a LoggingTransport's log
+type lockedBuf struct {
+	mu sync.Mutex
+	b  bytes.Buffer
+}
+
+func (l *lockedBuf) Write(p []byte) (int, error) {
+	l.mu.Lock()
+	defer l.mu.Unlock()
+	return l.b.Write(p)
+}
+
+func (l *lockedBuf) take() []byte {
+	l.mu.Lock()
+	defer l.mu.Unlock()
+	b := append([]byte(nil), l.b.Bytes()...)
+	l.b.Reset()
+	return b
+}
+
+// fixedTransport hands out one prepared connection (what LoggingTransport.Connect delegates to)
+type fixedTransport struct{ c Connection }
+
+func (t fixedTransport) Connect(context.Context) (Connection, error) { return t.c, nil }
+
 type ioWorld struct {
 	rwc     *memRWC
 	conn    *ioConn
+	front   Connection // what the ops call: conn itself, or the LoggingTransport's connection around it
+	log     *lockedBuf // non-nil: front is a logging connection writing here
 	pending int  // frames fed and not yet taken by Read
 	eofFed  bool // the input side has been closed after the fed frames
 	eofSeen bool // Read has returned the stream's end: the reader goroutine is gone
 }
 
-func (w *ioWorld) reset(outCap int) {
+func (w *ioWorld) reset(outCap int, logging bool) {
 	if w.conn != nil {
 		w.conn.Close()
 	}
 	w.rwc = newMemRWC()
 	w.conn = newIOConn(w.rwc)
+	w.front, w.log = w.conn, nil
+	if logging {
+		w.log = &lockedBuf{}
+		c, err := (&LoggingTransport{Transport: fixedTransport{w.conn}, Writer: w.log}).Connect(context.Background())
+		if err != nil {
+			panic(err)
+		}
+		w.front = c
+	}
 	if outCap > 0 {
 		w.conn.outgoingBatch = make([]jsonrpc.Message, 0, outCap)
 	}
@@ -1633,8 +1669,44 @@ func (w *wireWorld) apply(op string) (obs string) {
 		return "x" + hx(b)
 	case "io.new":
 		n, _ := strconv.Atoi(p.next())
-		w.io.reset(n)
+		w.io.reset(n, p.next() == "log")
 		return "ok"
+	case "io.log":
+		// what the LoggingTransport wrote since the last io.log: one entry per line
+		if w.io.log == nil {
+			return "bad-op"
+		}
+		b := w.io.log.take()
+		var out []string
+		for len(b) > 0 {
+			var l []byte
+			if i := bytes.IndexByte(b, '\n'); i >= 0 {
+				l, b = b[:i], b[i+1:]
+			} else {
+				l, b = b, nil
+				out = append(out, "!"+hx(l)) // an unterminated line
+				break
+			}
+			entry := func(kind string, payload []byte) string {
+				if v, err := parseJSON(payload); err == nil {
+					return kind + " " + v.tok()
+				}
+				return "!" + hx(l)
+			}
+			switch {
+			case bytes.HasPrefix(l, []byte("read: ")):
+				out = append(out, entry("r", l[len("read: "):]))
+			case bytes.HasPrefix(l, []byte("write: ")):
+				out = append(out, entry("w", l[len("write: "):]))
+			case bytes.HasPrefix(l, []byte("read error: ")):
+				out = append(out, "re")
+			case bytes.HasPrefix(l, []byte("write error: ")):
+				out = append(out, "we")
+			default:
+				out = append(out, "!"+hx(l))
+			}
+		}
+		return strings.TrimSpace(fmt.Sprintf("log %d %s", len(out), strings.Join(out, " ")))
 	case "io.feed":
 		v, layout, ok := p.frameArg()
 		if !ok || w.io.conn == nil || w.io.eofFed || layout == 3 {
@@ -1680,7 +1752,7 @@ func (w *wireWorld) apply(op string) (obs string) {
 		}
 		rctx, rcancel := context.WithTimeout(context.Background(), 10*time.Second)
 		defer rcancel()
-		msg, err := c.Read(rctx)
+		msg, err := w.io.front.Read(rctx)
 		if err != nil && rctx.Err() != nil {
 			return "hang"
 		}
@@ -1708,7 +1780,7 @@ func (w *wireWorld) apply(op string) (obs string) {
 			return "bad-op"
 		}
 		w.io.rwc.takeOut()
-		if err := w.io.conn.Write(context.Background(), m); err != nil {
+		if err := w.io.front.Write(context.Background(), m); err != nil {
 			return "write-error"
 		}
 		return writtenTok(w.io.rwc.takeOut())
@@ -2073,7 +2145,17 @@ func (g *ioGen) run(step stepper) {
 	if r.Intn(12) == 0 {
 		outCap = 1 + r.Intn(3)
 	}
-	step(fmt.Sprintf("io.new %d", outCap))
+	// 1 case in 4: the connection behind a LoggingTransport (every message passes through it unchanged,
+	// and the log shows each as its encoding)
+	logging := r.Intn(4) == 0
+	if logging {
+		step(fmt.Sprintf("io.new %d log", outCap), "io:logging")
+	} else {
+		step(fmt.Sprintf("io.new %d", outCap))
+	}
+	if logging {
+		defer func() { step("io.log", "io:logging") }()
+	}
 	var used []jv
 	nFrames := 1 + r.Intn(4)
 	fed := 0
@@ -2141,7 +2223,10 @@ func (g *ioGen) run(step stepper) {
 		if r.Intn(8) == 0 {
 			choices = append(choices, "other")
 		}
-		if outCap == 0 && r.Intn(6) == 0 {
+		if logging && r.Intn(10) == 0 {
+			choices = append(choices, "log")
+		}
+		if outCap == 0 && !logging && r.Intn(6) == 0 {
 			choices = append(choices, "concurrent")
 		}
 		if len(choices) == 0 {
@@ -2183,6 +2268,8 @@ func (g *ioGen) run(step stepper) {
 			step("io.eof")
 			eof = true
 			canRead = true
+		case "log":
+			step("io.log", "io:logging")
 		case "concurrent":
 			// 2-4 goroutines write at the same time (the responses of concurrently handled calls, a
 			// notification, a call of our own) to a stream that takes each Write in 2-3 pieces
